@@ -536,7 +536,9 @@ struct Stats {
 }
 
 fn metric_sum(plan: &Arc<dyn ExecutionPlan>, name: &str) -> usize {
-    plan.metrics().and_then(|m| m.sum_by_name(name)).map(|v| v.as_usize()).unwrap_or(0)
+    plan.metrics()
+        .map(|m| m.aggregate_by_name().iter().filter(|x| x.value().name() == name).map(|x| x.value().as_usize()).sum())
+        .unwrap_or(0)
 }
 
 fn run_case(c: &Case) -> Result<Stats, String> {
@@ -580,6 +582,9 @@ fn run_case(c: &Case) -> Result<Stats, String> {
         Ok(Ok(b)) => b,
     };
     st.spills = metric_sum(&plan, "spill_count");
+    if std::env::var("VERIF_DEBUG").is_ok() {
+        eprintln!("debug: spill_count={} metrics={}", st.spills, plan.metrics().map(|m| m.aggregate_by_name().to_string()).unwrap_or_default());
+    }
     st.array_maps = metric_sum(&plan, "array_map_created_count");
     let got = decode(&batches)?;
     st.out_rows = got.len();
@@ -619,6 +624,8 @@ struct Dims {
     max_rows: usize,
     batch_sizes: Vec<usize>,
     all_splits: bool,
+    /// only input pairs whose larger side has at least this many rows
+    min_big: usize,
 }
 
 /// One family of cases: a prototype (operator, join type, ...) crossed with all inputs.
@@ -630,11 +637,20 @@ struct Gen {
 }
 
 fn push_inputs(gens: &mut Vec<Gen>, proto: &Case, d: &Dims, nkeys: usize, payload_null: bool) {
-    gens.push(Gen { proto: proto.clone(), dims: Dims { max_rows: d.max_rows, batch_sizes: d.batch_sizes.clone(), all_splits: d.all_splits }, nkeys, payload_null });
+    gens.push(Gen { proto: proto.clone(), dims: Dims { max_rows: d.max_rows, batch_sizes: d.batch_sizes.clone(), all_splits: d.all_splits, min_big: d.min_big }, nkeys, payload_null });
 }
 
+/// Inputs of one side.  Operators that consume their inputs incrementally in arrival
+/// order (symmetric hash join) get every row *sequence*; for the others the row order
+/// inside a side is immaterial (or fixed by the required pre-sort) and canonical
+/// multisets are enumerated.
 fn tables_of(g: &Gen) -> Vec<Vec<Row>> {
-    enumerate::multisets(&row_values(g.nkeys, g.payload_null), 0, g.dims.max_rows)
+    let vals = row_values(g.nkeys, g.payload_null);
+    if matches!(g.proto.op, OpSpec::SymmetricHash { sorted: false, .. }) && g.dims.max_rows <= 2 {
+        enumerate::sequences(&vals, 0, g.dims.max_rows)
+    } else {
+        enumerate::multisets(&vals, 0, g.dims.max_rows)
+    }
 }
 
 fn splits_of(d: &Dims, n: usize) -> Vec<Vec<usize>> {
@@ -650,6 +666,9 @@ fn for_each_case(g: &Gen, tables: &[Vec<Row>], li: usize, mut f: impl FnMut(&Cas
     c.nkeys = g.nkeys;
     c.left = l.clone();
     for r in tables {
+        if l.len().max(r.len()) < g.dims.min_big {
+            continue;
+        }
         c.right = r.clone();
         for ls in splits_of(&g.dims, l.len()) {
             c.lsplit = ls;
@@ -666,7 +685,15 @@ fn for_each_case(g: &Gen, tables: &[Vec<Row>], li: usize, mut f: impl FnMut(&Cas
 
 fn explore(ctx: &Ctx) {
     let quick = ctx.quick();
-    let d = Dims { max_rows: ctx.pick(2, 3), batch_sizes: if quick { vec![1, 8192] } else { vec![1, 2, 8192] }, all_splits: !quick };
+    // passes over the main operator x join type x ... product: (input dimensions, include the two-key row domain)
+    let passes: Vec<(Dims, bool)> = if quick {
+        vec![(Dims { max_rows: 2, batch_sizes: vec![1, 8192], all_splits: false, min_big: 0 }, true)]
+    } else {
+        vec![
+            (Dims { max_rows: 2, batch_sizes: vec![1, 2, 8192], all_splits: true, min_big: 0 }, true),
+            (Dims { max_rows: 3, batch_sizes: vec![1, 8192], all_splits: false, min_big: 3 }, false),
+        ]
+    };
     let proto = Case {
         op: OpSpec::Cross { right_parts: 1 },
         jt: 0,
@@ -702,81 +729,85 @@ fn explore(ctx: &Ctx) {
             OpSpec::SymmetricHash { sorted: false, partitioned: true },
         ]);
     }
-    // equi-joins: operator x join type x NULL equality x residual filter x key columns x inputs
-    for op in &ops_equi {
-        for jt in 0..JOIN_TYPES.len() {
-            for null_eq in [false, true] {
-                for filter in [0u8, 1, 2, 3] {
-                    for nkeys in [1usize, 2] {
-                        if nkeys == 2 && (filter == 2 || (quick && filter == 3)) {
-                            continue; // two-key inputs carry a single payload value
+    for (d, two_key) in &passes {
+        // equi-joins: operator x join type x NULL equality x residual filter x key columns x inputs
+        for op in &ops_equi {
+            for jt in 0..JOIN_TYPES.len() {
+                for null_eq in [false, true] {
+                    for filter in [0u8, 1, 2, 3] {
+                        for nkeys in [1usize, 2] {
+                            if nkeys == 2 && (!*two_key || filter == 2 || (quick && filter == 3)) {
+                                continue; // two-key inputs carry a single payload value
+                            }
+                            let mut p = proto.clone();
+                            p.op = op.clone();
+                            p.jt = jt;
+                            p.null_eq = null_eq;
+                            p.filter = filter;
+                            push_inputs(&mut cases, &p, d, nkeys, false);
                         }
-                        let mut p = proto.clone();
-                        p.op = op.clone();
-                        p.jt = jt;
-                        p.null_eq = null_eq;
-                        p.filter = filter;
-                        push_inputs(&mut cases, &p, &d, nkeys, false);
                     }
                 }
             }
         }
-    }
-    // symmetric hash join with declared ordering on v and a range filter on it (pruning path)
-    for jt in 0..JOIN_TYPES.len() {
-        for null_eq in [false, true] {
-            for filter in [1u8, 2] {
-                let mut p = proto.clone();
-                p.op = OpSpec::SymmetricHash { sorted: true, partitioned: false };
-                p.jt = jt;
-                p.null_eq = null_eq;
-                p.filter = filter;
-                push_inputs(&mut cases, &p, &d, 1, false);
+        // symmetric hash join with declared ordering on v and a range filter on it (pruning path)
+        for jt in 0..JOIN_TYPES.len() {
+            for null_eq in [false, true] {
+                for filter in [1u8, 2] {
+                    let mut p = proto.clone();
+                    p.op = OpSpec::SymmetricHash { sorted: true, partitioned: false };
+                    p.jt = jt;
+                    p.null_eq = null_eq;
+                    p.filter = filter;
+                    push_inputs(&mut cases, &p, d, 1, false);
+                }
             }
         }
-    }
-    // null-aware anti joins (single key, no filter, NullEqualsNothing); wrong join types must be rejected
-    for (partitioned, right_parts) in [(false, 1usize), (false, 2), (true, 1)] {
-        for jt in 0..JOIN_TYPES.len() {
-            let mut p = proto.clone();
-            p.op = OpSpec::HashNullAware { partitioned, right_parts };
-            p.jt = jt;
-            let dd = Dims { max_rows: d.max_rows, batch_sizes: d.batch_sizes.clone(), all_splits: matches!(JOIN_TYPES[jt], JoinType::LeftAnti | JoinType::RightAnti) };
-            push_inputs(&mut cases, &p, &dd, 1, false);
-        }
-    }
-    // nested loop join: the whole condition is the filter
-    for right_parts in [1usize, 2] {
-        for jt in 0..JOIN_TYPES.len() {
-            for filter in [0u8, 1, 2, 3, 4] {
-                let mut p = proto.clone();
-                p.op = OpSpec::NestedLoop { right_parts };
-                p.jt = jt;
-                p.filter = filter;
-                push_inputs(&mut cases, &p, &d, 1, false);
-            }
-        }
-    }
-    // cross join
-    for right_parts in [1usize, 2] {
-        let mut p = proto.clone();
-        p.op = OpSpec::Cross { right_parts };
-        push_inputs(&mut cases, &p, &d, 1, false);
-    }
-    // piecewise merge join
-    for op in 0..4u8 {
-        for right_parts in [1usize, 2] {
+        // null-aware anti joins (single key, no filter, NullEqualsNothing); wrong join types must be rejected
+        // (Partitioned mode is accepted by the builder for LeftAnti but documented as unsupported - the planner
+        //  and JoinSelection always force CollectLeft - so it is not explored.)
+        for (partitioned, right_parts) in [(false, 1usize), (false, 2)] {
             for jt in 0..JOIN_TYPES.len() {
                 let mut p = proto.clone();
-                p.op = OpSpec::PiecewiseMerge { op, right_parts };
+                p.op = OpSpec::HashNullAware { partitioned, right_parts };
                 p.jt = jt;
-                push_inputs(&mut cases, &p, &d, 1, false);
+                let dd = Dims { max_rows: d.max_rows, batch_sizes: d.batch_sizes.clone(), all_splits: d.all_splits && matches!(JOIN_TYPES[jt], JoinType::LeftAnti | JoinType::RightAnti), min_big: d.min_big };
+                push_inputs(&mut cases, &p, &dd, 1, false);
+            }
+        }
+        // nested loop join: the whole condition is the filter
+        for right_parts in [1usize, 2] {
+            for jt in 0..JOIN_TYPES.len() {
+                for filter in [0u8, 1, 2, 3, 4] {
+                    let mut p = proto.clone();
+                    p.op = OpSpec::NestedLoop { right_parts };
+                    p.jt = jt;
+                    p.filter = filter;
+                    push_inputs(&mut cases, &p, d, 1, false);
+                }
+            }
+        }
+        // cross join
+        for right_parts in [1usize, 2] {
+            let mut p = proto.clone();
+            p.op = OpSpec::Cross { right_parts };
+            push_inputs(&mut cases, &p, d, 1, false);
+        }
+        // piecewise merge join
+        for op in 0..4u8 {
+            for right_parts in [1usize, 2] {
+                for jt in 0..JOIN_TYPES.len() {
+                    let mut p = proto.clone();
+                    p.op = OpSpec::PiecewiseMerge { op, right_parts };
+                    p.jt = jt;
+                    push_inputs(&mut cases, &p, d, 1, false);
+                }
             }
         }
     }
     // payload NULLs (the filter sees NULL operands)
     if !quick {
-        let dn = Dims { max_rows: 2, batch_sizes: vec![1, 8192], all_splits: false };
+        let dn = Dims { max_rows: 2, batch_sizes: vec![1, 8192], all_splits: false, min_big: 0 };
         for op in [
             OpSpec::HashCollectLeft { perfect: true, right_parts: 1 },
             OpSpec::HashPartitioned { perfect: false, parts: 2 },
@@ -800,7 +831,7 @@ fn explore(ctx: &Ctx) {
     }
     // memory budgets for the spillable operators
     let budgets: Vec<(u8, usize)> = if quick { vec![(1, 600), (2, 1500)] } else { vec![(1, 0), (1, 300), (1, 600), (1, 1000), (1, 1500), (2, 600), (2, 1500), (2, 3000)] };
-    let dm = Dims { max_rows: d.max_rows, batch_sizes: vec![1, 8192], all_splits: !quick };
+    let dm = Dims { max_rows: 2, batch_sizes: vec![1, 8192], all_splits: !quick, min_big: 0 };
     for (pool, mem) in &budgets {
         for op in [OpSpec::SortMerge { descending: false, nulls_first: false }, OpSpec::NestedLoop { right_parts: 1 }] {
             for jt in 0..JOIN_TYPES.len() {
@@ -818,7 +849,7 @@ fn explore(ctx: &Ctx) {
     }
     // enforce_batch_size_in_joins for the operators that read it
     if !quick {
-        let de = Dims { max_rows: d.max_rows, batch_sizes: vec![1, 2], all_splits: false };
+        let de = Dims { max_rows: 2, batch_sizes: vec![1, 2], all_splits: false, min_big: 0 };
         for op in [OpSpec::SymmetricHash { sorted: false, partitioned: false }, OpSpec::NestedLoop { right_parts: 1 }, OpSpec::Cross { right_parts: 1 }] {
             for jt in 0..JOIN_TYPES.len() {
                 if matches!(op, OpSpec::Cross { .. }) && jt != 0 {
@@ -847,29 +878,36 @@ fn explore(ctx: &Ctx) {
         .iter()
         .zip(&tables)
         .map(|(g, ts)| {
-            let per_side: u64 = ts.iter().map(|t| splits_of(&g.dims, t.len()).len() as u64).sum();
-            per_side * per_side * g.dims.batch_sizes.len() as u64
+            let mut n = 0u64;
+            for l in ts {
+                for r in ts {
+                    if l.len().max(r.len()) >= g.dims.min_big {
+                        n += (splits_of(&g.dims, l.len()).len() * splits_of(&g.dims, r.len()).len() * g.dims.batch_sizes.len()) as u64;
+                    }
+                }
+            }
+            n
         })
         .sum();
 
     ctx.set_extra(
         "bounds",
         json!({
-            "rows_per_side": format!("all multisets of <= {} rows", d.max_rows),
+            "rows_per_side": if quick { "all multisets of <= 2 rows (all sequences for the unsorted symmetric hash join, which consumes batches in arrival order)" } else { "pass 1: as quick, with every batch cut and batch_size {1,2,8192}; pass 2: all multisets with a 3-row side (one-key domain), finest cut, batch_size {1,8192}" },
             "row_domain_1key": "k1 in {NULL,1,2}, v in {1,2} (thorough adds v = NULL for <= 2 rows)",
             "row_domain_2key": "k1 in {NULL,1}, k2 in {NULL,1,2}, v = 1",
-            "batch_splits": if d.all_splits { "every cut of each side into <= 2 batches" } else { "finest cut of each side into <= 2 batches" },
-            "batch_size": d.batch_sizes,
+            "batch_splits": if quick { "finest cut of each side into <= 2 batches" } else { "every cut of each side into <= 2 batches (pass 1), finest (pass 2)" },
+            "batch_size": if quick { "1, 8192" } else { "1, 2, 8192 (pass 1); 1, 8192 (pass 2)" },
             "join_types": JOIN_TYPES.iter().map(|j| j.to_string()).collect::<Vec<_>>(),
             "null_equality": ["NullEqualsNothing", "NullEqualsNull"],
             "filters": "none | l.v < r.v | l.v + r.v = 3 | literal false | (nested loop) l.k1 = r.k1",
             "operators": ops_equi.iter().map(|o| format!("{o:?}")).collect::<Vec<_>>(),
-            "other_operators": "SymmetricHash{sorted} | HashNullAware x3 | NestedLoop{1,2 right partitions} | Cross{1,2} | PiecewiseMerge{< <= > >=}x{1,2 streamed partitions}",
+            "other_operators": "SymmetricHash{sorted} | HashNullAware(CollectLeft, 1-2 probe partitions) | NestedLoop{1,2 right partitions} | Cross{1,2} | PiecewiseMerge{< <= > >=}x{1,2 streamed partitions}",
             "memory_budgets(pool,bytes)": budgets,
             "cases": n_cases,
         }),
     );
-    ctx.assume("null-aware anti joins are checked without residual filter and with NullEqualsNothing only (NOT IN semantics; the property does not define the other combinations)");
+    ctx.assume("null-aware anti joins are checked in CollectLeft mode only (the planner never builds the Partitioned form), without residual filter and with NullEqualsNothing (NOT IN semantics; the property does not define the other combinations)");
     ctx.assume("a run that ends in ResourcesExhausted under a finite memory budget is counted, not compared");
 
     let found: Mutex<BTreeMap<String, ((usize, usize, String), String, Case)>> = Mutex::new(BTreeMap::new());
@@ -916,9 +954,13 @@ fn explore(ctx: &Ctx) {
                         3 => "column-free-filter",
                         _ => "column-filter",
                     };
+                    let jgroup = match JOIN_TYPES[c.jt] {
+                        JoinType::Inner | JoinType::Left | JoinType::Right | JoinType::Full => "inner/outer",
+                        JoinType::LeftMark | JoinType::RightMark => "mark",
+                        _ => "semi/anti",
+                    };
                     let key = format!(
-                        "{fam}|{}|{fclass}|{}{}",
-                        JOIN_TYPES[c.jt],
+                        "{fam}|{jgroup}|{fclass}|{}{}",
                         if c.null_eq { "NullEqualsNull" } else { "NullEqualsNothing" },
                         if c.pool != 0 { "|memory-budget" } else { "" }
                     );
